@@ -377,6 +377,7 @@ def run(ctx: Ctx) -> None:
         for b in bad:
             ctx.violation({k: b[k] for k in ("formula", "fid", "path", "output", "materializer", "full_rank", "na", "cluster")}, b, kind="replay")
     ctx.notes["combinations"] = len(ALL)
+    ctx.require("replay: executed (case, combination) pairs of the materialize enumeration", sum(n for _, n in res), 1000)
     for c in [c for c in cases if len(c["names"]) >= 3][:1]:
         ctx.sample({"formula": matlib.render_formula(c["written"], c["icpt"]), "frame": c["fid"], "names": c["names"], "cells": c["cells"],
                     "executed_on": "entry points x outputs x materializers"})
